@@ -132,21 +132,27 @@ def keyWord (key : Bytes) (h : 0 < key.length) (i : Nat) : UInt32 :=
 def xorKey (t : Tables) (key : Bytes) (h : 0 < key.length) : Tables :=
   (List.finRange 18).foldl (fun t (i : Fin 18) => { t with p := t.p.set i.val (t.p[i.val] ^^^ keyWord key h i.val) }) t
 
-/-- steps 3–6: replace P1,P2 by the encryption of the running block, P3,P4 by the encryption of that … -/
+/-- steps 3–6, one step: replace P(2k+1), P(2k+2) by the encryption of the running block -/
+def stepP (tx : Tables × (UInt32 × UInt32)) (k : Fin 9) : Tables × (UInt32 × UInt32) :=
+  let y := encryptBlock tx.1 tx.2
+  ({ tx.1 with p := (tx.1.p.set (2 * k.val) y.1).set (2 * k.val + 1) y.2 }, y)
+
+/-- steps 3–6: P1,P2 := E(0); P3,P4 := E(P1,P2) under the modified subkeys; … -/
 def fillP (tx : Tables × (UInt32 × UInt32)) : Tables × (UInt32 × UInt32) :=
-  (List.finRange 9).foldl (fun tx k =>
-    let y := encryptBlock tx.1 tx.2
-    ({ tx.1 with p := (tx.1.p.set (2 * k.val) y.1).set (2 * k.val + 1) y.2 }, y)) tx
+  (List.finRange 9).foldl stepP tx
+
+/-- step 7, one step for S-box `b`: entries 2k, 2k+1 -/
+def stepBox (b : Fin 4) (tx : Tables × (UInt32 × UInt32)) (k : Fin 128) : Tables × (UInt32 × UInt32) :=
+  let y := encryptBlock tx.1 tx.2
+  ({ tx.1 with s := tx.1.s.set b.val (((tx.1.s[b.val]).set (2 * k.val) y.1).set (2 * k.val + 1) y.2) }, y)
 
 /-- step 7 for S-box `b`: its 256 entries, two at a time -/
-def fillBox (b : Fin 4) (tx : Tables × (UInt32 × UInt32)) : Tables × (UInt32 × UInt32) :=
-  (List.finRange 128).foldl (fun tx k =>
-    let y := encryptBlock tx.1 tx.2
-    ({ tx.1 with s := tx.1.s.set b (((tx.1.s[b]).set (2 * k.val) y.1).set (2 * k.val + 1) y.2) }, y)) tx
+def fillBox (tx : Tables × (UInt32 × UInt32)) (b : Fin 4) : Tables × (UInt32 × UInt32) :=
+  (List.finRange 128).foldl (stepBox b) tx
 
 /-- step 7: all four S-boxes in order -/
 def fillS (tx : Tables × (UInt32 × UInt32)) : Tables × (UInt32 × UInt32) :=
-  fillBox 3 (fillBox 2 (fillBox 1 (fillBox 0 tx)))
+  (List.finRange 4).foldl fillBox tx
 
 /-- subkeys for `key` starting from the initial tables `t` (521 block encryptions) -/
 def keySchedule (t : Tables) (key : Bytes) (h : 0 < key.length) : Tables :=
